@@ -61,6 +61,19 @@ pub struct Hist<'c> {
 	/// keys whose rc dropped to zero at least once while still queued
 	pub zero_crossings: u64,
 	pub tree_nonce: u64,
+	/// accepted-but-unlogged tree insertions were lost by an error-state shutdown: entries they
+	/// claimed may legitimately be unaccounted for (examined under C14, not C08)
+	pub entry_counts_unreliable: bool,
+	/// the history ends here (after an error-state restart the exact prefix - and with it the
+	/// reference counts - is not identifiable from reads alone)
+	pub ended: bool,
+	/// mirror of the library's commit queue (accepted, not yet logged), in queue order
+	pub mirror: std::collections::VecDeque<Vec<Op>>,
+	/// (col, key) pairs written by a postponed transaction and by a transaction that overtook it
+	pub tainted: BTreeSet<(u8, Vec<u8>)>,
+	/// C11: histories that deliberately submit transactions conflicting with a postponed one
+	pub f4_probe: bool,
+	pub fresh_key_counter: u64,
 }
 
 pub fn run_case(ctx: &Ctx, rep: &mut Report, profile: Profile, case_seed: u64, variant: u64) {
@@ -181,7 +194,8 @@ impl<'c> Hist<'c> {
 				pools.push(p);
 				absent.push(vec![]);
 			} else if c.uniform && cfg.salt == Some([0u8; 32]) {
-				let (p, g) = adversarial_pool(&mut rng, n, profile == Profile::C09);
+				let n = if profile == Profile::C09 { n } else { rng.range(90, 130) as usize };
+				let (p, g) = adversarial_pool(&mut rng, n, true);
 				if i == 0 {
 					groups = g;
 				}
@@ -209,7 +223,9 @@ impl<'c> Hist<'c> {
 				absent.push(a);
 			}
 		}
-		let iter_col = cfg.cols.iter().position(|c| c.btree_index).map(|i| i as u8);
+		// ordered iteration is only specified against committed state for columns without
+		// reference counting (a dereference is not mirrored in the commit overlay, C07)
+		let iter_col = cfg.cols.iter().position(|c| c.btree_index && !c.ref_counted).map(|i| i as u8);
 		let used = cfg.cols.iter().map(|_| BTreeSet::new()).collect();
 		let cfg_key = cfg.describe();
 		Hist {
@@ -241,6 +257,12 @@ impl<'c> Hist<'c> {
 			cfg_key,
 			zero_crossings: 0,
 			tree_nonce: 0,
+			entry_counts_unreliable: false,
+			ended: false,
+			mirror: Default::default(),
+			tainted: BTreeSet::new(),
+			f4_probe: profile == Profile::C11 && variant % 3 == 0,
+			fresh_key_counter: 0,
 		}
 	}
 
@@ -251,10 +273,10 @@ impl<'c> Hist<'c> {
 		self.trace.push(s);
 	}
 
-	fn open(&mut self, rep: &mut Report) -> R<Db> {
+	fn open(&mut self, rep: &mut Report) -> R<dbutil::Handle> {
 		let opts = self.cfg.options(&self.dir.path.join("db"));
 		match Db::open_or_create(&opts) {
-			Ok(db) => Ok(db),
+			Ok(db) => Ok(dbutil::Handle::new(db)),
 			Err(e) => {
 				let _ = rep;
 				fail("failure=open_error", format!("open_or_create failed: {}", e))
@@ -270,6 +292,10 @@ impl<'c> Hist<'c> {
 			if self.restarts > 0 {
 				self.log("validate after reopen".into());
 				self.validate(&db, rep, true)?;
+				if self.ended {
+					db.close();
+					return Ok(())
+				}
 			}
 			self.segment(&db, rep, &mut steps_left)?;
 			self.close(db, rep)?;
@@ -278,6 +304,10 @@ impl<'c> Hist<'c> {
 		let db = self.open(rep)?;
 		self.log("final validate after reopen".into());
 		self.validate(&db, rep, true)?;
+		if self.ended {
+			db.close();
+			return Ok(())
+		}
 		self.drain(&db, rep)?;
 		self.validate(&db, rep, true)?;
 		self.quiescent_checks(&db, rep)?;
@@ -285,7 +315,7 @@ impl<'c> Hist<'c> {
 		let db = self.open(rep)?;
 		self.log("validate after final reopen".into());
 		self.validate(&db, rep, true)?;
-		drop(db);
+		db.close();
 		Ok(())
 	}
 
@@ -315,7 +345,21 @@ impl<'c> Hist<'c> {
 		}
 	}
 
-	fn close(&mut self, db: Db, rep: &mut Report) -> R<()> {
+	fn close(&mut self, db: dbutil::Handle, rep: &mut Report) -> R<()> {
+		if std::env::var("PDBV_DEBUG_DRAIN_BEFORE_DROP").is_ok() {
+			self.log("debug: drain before drop".into());
+			self.drain(&db, rep)?;
+			self.validate(&db, rep, true)?;
+		}
+		if self.profile == Profile::C11 && !self.bg_err {
+			// log the queue through tracked steps: a postponement inside drop would reorder
+			// transactions without the queue mirror noticing (finding F4 is classified by it)
+			let mut bound = 0;
+			while db.verif_status().queued_commits > 0 && bound < 10_000 {
+				self.pipeline(&db, rep, Step::ProcessCommits)?;
+				bound += 1;
+			}
+		}
 		// rule L2: make the drop legal (what the cleanup worker would have done)
 		if !self.bg_err {
 			if let Err(e) = dbutil::make_drop_legal(&db) {
@@ -342,7 +386,8 @@ impl<'c> Hist<'c> {
 			rep.seen(format!("drop@{}|{}", sh, self.cfg_key));
 		}
 		self.ctx.progress();
-		drop(db);
+		db.close();
+		self.mirror.clear();
 		self.restarts += 1;
 		rep.count("restarts", 1);
 		self.iter_positioned = false;
@@ -351,8 +396,19 @@ impl<'c> Hist<'c> {
 	}
 
 	fn drain(&mut self, db: &Db, rep: &mut Report) -> R<()> {
+		// log the queue through the tracked step so that the queue mirror stays exact
+		loop {
+			let st = db.verif_status();
+			if st.queued_commits == 0 {
+				break
+			}
+			self.pipeline(db, rep, Step::ProcessCommits)?;
+			if db.verif_status().queued_commits >= st.queued_commits {
+				break
+			}
+		}
 		self.log("drain pipeline".into());
-		match dbutil::drain(db) {
+		match dbutil::drain_opt(db, false) {
 			Ok(rounds) => {
 				rep.max("drain_rounds", rounds as u64);
 				Ok(())
@@ -426,8 +482,12 @@ impl<'c> Hist<'c> {
 				},
 				9 => {
 					self.drain(db, rep)?;
-					self.validate(db, rep, true)?;
-					self.quiescent_checks(db, rep)?;
+					// a postponed tree removal (locked reader) keeps the queue non-empty
+					let settled = db.verif_status().queued_commits == 0;
+					self.validate(db, rep, settled)?;
+					if settled {
+						self.quiescent_checks(db, rep)?;
+					}
 					continue
 				},
 				_ => self.special(db, rep, &mut guards)?,
@@ -458,8 +518,24 @@ impl<'c> Hist<'c> {
 		if before.queued_commits > after.queued_commits && after.queued_commits == before.queued_commits - 1 && step == Step::ProcessCommits {
 			rep.count("commits_logged", 1);
 		}
-		if step == Step::ProcessCommits && before.queued_commits > 0 && after.queued_commits == before.queued_commits && after.last_commit_id > before.last_commit_id {
-			rep.count("deferred_commits", 1);
+		if step == Step::ProcessCommits && before.queued_commits > 0 {
+			if after.queued_commits + 1 == before.queued_commits {
+				self.mirror.pop_front();
+			} else if after.queued_commits == before.queued_commits {
+				// the head transaction was postponed (its tree is locked) and re-queued at the back:
+				// everything queued behind it now overtakes it
+				rep.count("deferred_commits", 1);
+				if let Some(d) = self.mirror.pop_front() {
+					for op in &d {
+						let hit = self.mirror.iter().any(|t| t.iter().any(|o| o.col() == op.col() && o.key() == op.key()));
+						if hit {
+							self.tainted.insert((op.col(), op.key().clone()));
+							rep.count("deferred_overtaken_keys", 1);
+						}
+					}
+					self.mirror.push_back(d);
+				}
+			}
 		}
 		let grown: usize = after.columns.iter().zip(before.columns.iter()).map(|(a, b)| (a.index_bits.unwrap_or(0) as usize).saturating_sub(b.index_bits.unwrap_or(0) as usize)).sum();
 		if grown > 0 {
@@ -594,7 +670,10 @@ impl<'c> Hist<'c> {
 		let r = self.rng.below(100);
 		let insert = live.len() < 2 || r < 45;
 		if insert {
-			let free: Vec<Vec<u8>> = self.pools[c as usize].iter().filter(|k| !tm.roots.contains_key(*k)).cloned().collect();
+			let probe = self.f4_probe;
+			let pending: BTreeSet<Vec<u8>> = self.mirror.iter().flatten().filter(|o| o.col() == c).map(|o| o.key().clone()).collect();
+			// a root key whose removal may still be postponed is only re-used by the F4 probe histories
+			let free: Vec<Vec<u8>> = self.pools[c as usize].iter().filter(|k| !tm.roots.contains_key(*k) && (probe || !pending.contains(*k))).cloned().collect();
 			if free.is_empty() {
 				return
 			}
@@ -666,6 +745,11 @@ impl<'c> Hist<'c> {
 
 	fn do_commit(&mut self, db: &Db, rep: &mut Report) -> R<()> {
 		let mut tx = self.gen_tx();
+		if self.profile == Profile::C11 && !self.f4_probe && tx.iter().any(|o| matches!(o, Op::DerefTree(..))) {
+			// a tree dereference may be postponed; outside the F4 probe histories it travels
+			// without writes to keys that other transactions also write
+			tx.retain(|o| self.cfg.cols[o.col() as usize].multitree);
+		}
 		let mut invalid_kind = None;
 		if self.profile == Profile::C08 && !self.bg_err && self.rng.chance(1, 4) {
 			invalid_kind = self.make_invalid(&mut tx);
@@ -688,6 +772,7 @@ impl<'c> Hist<'c> {
 		match (res, expect_err) {
 			(Ok(()), false) => {
 				self.apply_tx(&tx);
+				self.mirror.push_back(tx.clone());
 				self.accepted += 1;
 				self.commits_since_iter_call += 1;
 				rep.count("commits_accepted", 1);
@@ -701,7 +786,12 @@ impl<'c> Hist<'c> {
 							rep.max("tree_fanout", spec.max_fanout() as u64);
 							rep.max("tree_new_nodes", spec.count_new() as u64);
 						},
-						Op::DerefTree(..) => rep.count("trees_dereferenced", 1),
+						Op::DerefTree(c, k) => {
+							rep.count("trees_dereferenced", 1);
+							if !self.trees.get(c).map_or(false, |t| t.roots.contains_key(k)) {
+								rep.count("trees_removed", 1);
+							}
+						},
 						_ => {},
 					}
 				}
@@ -876,6 +966,11 @@ impl<'c> Hist<'c> {
 			// Keep the Arc alive together with its read guard. The guard borrows the Arc's
 			// content, which lives on the heap for as long as the Arc clone inside `Held` lives.
 			let held = Held::new(t);
+			if self.ctx.verbose {
+				eprintln!("    debug: reader locked={} strong={}", held.reader.is_locked(), std::sync::Arc::strong_count(&held.reader));
+				let again = db.get_tree(c, &k).unwrap().unwrap();
+				eprintln!("    debug: same arc on second get_tree = {}", std::sync::Arc::ptr_eq(&again, &held.reader));
+			}
 			guards.push((c, k, Box::new(held)));
 			rep.count("guards_taken", 1);
 			return Ok(())
@@ -887,14 +982,25 @@ impl<'c> Hist<'c> {
 		}
 		let mut tx = vec![Op::DerefTree(c, k.clone())];
 		if self.cfg.cols.len() > 1 && self.rng.chance(2, 3) {
-			self.gen_kv_ops(1, 2, &mut tx);
+			if self.f4_probe {
+				self.gen_kv_ops(1, 2, &mut tx);
+			} else {
+				// keys no other transaction ever writes: the outcome is independent of where the
+				// postponed transaction ends up in the queue
+				for _ in 0..2 {
+					self.fresh_key_counter += 1;
+					let key = format!("fresh-{}-{}", self.case_seed, self.fresh_key_counter).into_bytes();
+					let v = gen::random_value(&mut self.rng, false);
+					tx.push(Op::Set(1, key, v));
+				}
+			}
 		}
 		if guards.iter().any(|g| g.1 == k) {
 			rep.count("guard_held_derefs", 1);
 		}
 		self.commit_tx(db, rep, tx, None)?;
 		// follow with a transaction writing the same second-column keys
-		if self.cfg.cols.len() > 1 && self.rng.chance(1, 2) {
+		if self.f4_probe && self.cfg.cols.len() > 1 && self.rng.chance(1, 2) {
 			let mut tx2 = vec![];
 			self.gen_kv_ops(1, 2, &mut tx2);
 			self.commit_tx(db, rep, tx2, None)?;
@@ -913,6 +1019,12 @@ impl<'c> Hist<'c> {
 			rep.evaluations += 1;
 			match (snap, &now) {
 				(Ok(a), Ok(b)) if a == b => {},
+				(Ok(_), Ok(_)) if self.tainted.contains(&(*_c, k.clone())) || self.mirror.iter().flatten().any(|o| matches!(o, Op::InsertTree(..)) && o.key() == k) => {
+					return fail(
+						"failure=deferred_commit_reordered_writes;what=locked_tree_root_replaced",
+						format!("tree {}: its root key was inserted again while its removal is postponed; the guard holder sees the new root", short_bytes(k)),
+					)
+				},
 				(Ok(_), Ok(_)) => {
 					return fail(
 						"failure=locked_tree_changed",
@@ -1158,6 +1270,17 @@ impl<'c> Hist<'c> {
 					return fail(format!("failure=size_mismatch;col={}", kind), format!("get_size({}) = {:?} but value has {} bytes", short_bytes(k), size, got.as_ref().unwrap().len()))
 				}
 			} else {
+				if got != expect && self.tainted.contains(&(c, k.clone())) {
+					return fail(
+						"failure=deferred_commit_reordered_writes",
+						format!(
+							"key {} was written by a transaction whose tree dereference was postponed and by a later transaction that overtook it: get returned {} but applying transactions in commit order gives {}",
+							short_bytes(k),
+							show_opt(&got),
+							show_opt(&expect)
+						),
+					)
+				}
 				if got != expect {
 					let stale = got.is_some() && expect.is_some();
 					return fail(
@@ -1206,6 +1329,12 @@ impl<'c> Hist<'c> {
 					rep.count("shared_node_refs", ws.shared_hits);
 					rep.max("tree_depth", ws.max_depth);
 				},
+				Err(e) if self.tainted.contains(&(c, k.clone())) => {
+					return fail(
+						"failure=deferred_commit_reordered_writes;what=tree_root",
+						format!("tree {} was dereferenced by a postponed transaction and touched by a transaction that overtook it: {}", short_bytes(k), e),
+					)
+				},
 				Err(e) => {
 					return fail(
 						format!("failure=tree_mismatch;col={}", kind),
@@ -1225,6 +1354,12 @@ impl<'c> Hist<'c> {
 						Ok(Some(t)) => {
 							let g = t.read();
 							if let Ok(Some(_)) = g.get_root() {
+								if self.tainted.contains(&(c, k.clone())) {
+									return fail(
+										"failure=deferred_commit_reordered_writes;what=tree_root",
+										format!("root {} was dereferenced by a postponed transaction and touched by a transaction that overtook it; it is still readable", short_bytes(k)),
+									)
+								}
 								return fail(
 									format!("failure=dead_tree_readable;col={}", kind),
 									format!("root {} has no references left and every commit is logged, but it is still readable", short_bytes(k)),
@@ -1257,6 +1392,11 @@ impl<'c> Hist<'c> {
 					rep.count("prefix_matches", 1);
 					self.log(format!("state after error-state restart equals prefix {} of {}", m, n));
 					// continue the history from that prefix
+					self.ended = true;
+					if m < n {
+						self.entry_counts_unreliable = true;
+						rep.count("error_restart_lost_commits", (n - m) as u64);
+					}
 					self.accepted_models.truncate(m);
 					self.bg_err = false;
 					return Ok(())
@@ -1275,6 +1415,10 @@ impl<'c> Hist<'c> {
 			"failure=non_prefix_state_after_error_restart",
 			format!("state after restart matches no prefix of the accepted transactions; against the full model: {}", f.detail),
 		)
+	}
+
+	fn col_tainted(&self, c: u8) -> bool {
+		self.tainted.iter().any(|(tc, _)| *tc == c)
 	}
 
 	fn fresh_trees(&self) -> BTreeMap<u8, TreeModel> {
@@ -1302,9 +1446,16 @@ impl<'c> Hist<'c> {
 				let tm = self.trees.get(&ci8).unwrap();
 				let expect = tm.live_entries() as u64;
 				match db.get_num_column_value_entries(ci8) {
+					Ok(_) if self.entry_counts_unreliable => {},
 					Ok(n) => {
 						rep.count("entry_count_checks", 1);
 						rep.evaluations += 1;
+						if n != expect && self.col_tainted(ci8) {
+							return fail(
+								"failure=deferred_commit_reordered_writes;what=entry_count",
+								format!("column holds {} value entries, model has {}; a postponed tree dereference was overtaken by a transaction on the same root", n, expect),
+							)
+						}
 						if n != expect {
 							return fail(
 								format!("failure=entry_count_mismatch;col={};dir={}", kind, if n > expect { "leak" } else { "loss" }),
@@ -1319,10 +1470,6 @@ impl<'c> Hist<'c> {
 						// multipart entries present: the library cannot count (documented TODO); fsck covers it
 						rep.count("entry_count_unavailable_multipart", 1);
 					},
-				}
-				let removed = rep.get("trees_dereferenced");
-				if removed > 0 {
-					rep.count("trees_removed", 0);
 				}
 			} else if !c.btree_index {
 				// iter_column_while: exactly the live values (with counts)
@@ -1351,6 +1498,12 @@ impl<'c> Hist<'c> {
 					rep.count("rc_iter_checks", 1);
 				}
 				rep.count("value_iteration_checks", 1);
+				if got != expect && self.col_tainted(ci8) {
+					return fail(
+						"failure=deferred_commit_reordered_writes;what=value_iteration",
+						"value iteration differs from the model in a column where a postponed transaction was overtaken by a writer of the same key".to_string(),
+					)
+				}
 				if got != expect {
 					let missing = expect.iter().filter(|e| !got.contains(e)).count();
 					let extra = got.iter().filter(|g| !expect.contains(g)).count();
